@@ -8,26 +8,116 @@ From Noir Require Import Base.Elem Model.End Model.Idle Proofs.LinkProofs Proofs
 From Coq Require Import NArith.
 Open Scope nat_scope.
 
-(** With ANY batch mode every buffered element is delivered at the latest when its
-    iteration ends ... *)
-Theorem C18_round_end_flushes : forall {A} (s : strategy) (m : batch_mode) (blocks : list nat)
-    (l : list (elem A * N * N)) (hash rnd : N) (b r : nat),
+(** With ANY batch mode and ANY clock ([t0]: the reading when the batchers are created,
+    [clock k]: the reading while `End` processes the k-th element it pulls) every buffered
+    element is delivered at the latest when its iteration ends ... *)
+Theorem C18_round_end_flushes : forall {A} (clock : nat -> N) (t0 : N) (s : strategy) (m : batch_mode)
+    (blocks : list nat) (l : list (elem A * N * N)) (hash rnd : N) (b r : nat),
   b < length blocks -> r < nth b blocks 0 ->
   (forall x, In x l -> fst (fst x) <> Terminate) ->
-  match m with BFixed n => 1 <= n | BSingle => True end ->
-  received (run (end_machine s m blocks) (l ++ [(FAR, hash, rnd)])) b r
+  match m with BFixed n => 1 <= n | BAdaptive n _ => 1 <= n | BSingle => True end ->
+  received (run (end_machine clock t0 s m blocks) (l ++ [(FAR, hash, rnd)])) b r
   = map (fun x => fst (fst x)) (filter (addressed s blocks b r) l) ++ [FAR].
 Proof. exact @end_round_flushed. Qed.
 
 (** ... and whenever the block signals idleness (a FlushBatch reaches its End) *)
-Theorem C18_idle_flushes : forall {A} (s : strategy) (m : batch_mode) (blocks : list nat)
-    (l : list (elem A * N * N)) (hash rnd : N) (b r : nat),
+Theorem C18_idle_flushes : forall {A} (clock : nat -> N) (t0 : N) (s : strategy) (m : batch_mode)
+    (blocks : list nat) (l : list (elem A * N * N)) (hash rnd : N) (b r : nat),
   b < length blocks -> r < nth b blocks 0 ->
   (forall x, In x l -> fst (fst x) <> Terminate) ->
-  match m with BFixed n => 1 <= n | BSingle => True end ->
-  received (run (end_machine s m blocks) (l ++ [(FlushBatch, hash, rnd)])) b r
+  match m with BFixed n => 1 <= n | BAdaptive n _ => 1 <= n | BSingle => True end ->
+  received (run (end_machine clock t0 s m blocks) (l ++ [(FlushBatch, hash, rnd)])) b r
   = map (fun x => fst (fst x)) (filter (addressed s blocks b r) l).
 Proof. exact @end_flushbatch_flushed. Qed.
+
+(** The adaptive mode `Adaptive(n, d)` (the engine's default). [end_state .. l] is the state
+    of `End` after pulling [l]; [buffer_of] / [last_send_of] are the `buffer` / `last_send`
+    of the batcher towards replica r of block b. The buffer is exactly what was addressed to
+    the receiver and not yet sent ... *)
+Theorem C18_buffer_is_pending : forall {A} (clock : nat -> N) (t0 : N) (s : strategy) (m : batch_mode)
+    (blocks : list nat) (l : list (elem A * N * N)) (b r : nat),
+  b < length blocks -> r < nth b blocks 0 ->
+  received (run (end_machine clock t0 s m blocks) l) b r ++ buffer_of (end_state clock t0 s m blocks l) b r
+  = map (fun x => fst (fst x)) (filter (addressed s blocks b r) l).
+Proof. exact @end_buffer_pending. Qed.
+
+(** ... `last_send` is the reading at setup until a batch is sent to the receiver, then the
+    reading of the last step that sent it one (an EMPTY flush leaves it alone) ... *)
+Theorem C18_last_send_init : forall {A} (clock : nat -> N) (t0 : N) (s : strategy) (m : batch_mode)
+    (blocks : list nat) (b r : nat),
+  b < length blocks -> r < nth b blocks 0 ->
+  last_send_of (@end_state A clock t0 s m blocks []) b r = t0.
+Proof. exact @last_send_init. Qed.
+Theorem C18_last_send_step : forall {A} (clock : nat -> N) (t0 : N) (s : strategy) (m : batch_mode)
+    (blocks : list nat) (l : list (elem A * N * N)) (x : elem A * N * N) (b r : nat),
+  m <> BSingle -> b < length blocks -> r < nth b blocks 0 ->
+  last_send_of (end_state clock t0 s m blocks (l ++ [x])) b r
+  = match received (snd (end_step clock s m blocks (end_state clock t0 s m blocks l) x)) b r with
+    | [] => last_send_of (end_state clock t0 s m blocks l) b r
+    | _ => clock (length l)
+    end.
+Proof. exact @last_send_step. Qed.
+
+(** ... and an element (data or watermark) enqueued towards a receiver more than [d] after
+    that receiver's `last_send` is sent at once, with everything buffered before it: the
+    buffer is empty afterwards, the receiver has got everything addressed to it so far.
+    Hence under a steady input no element waits in a batcher for more than [d] plus the
+    time to the next element for the same receiver; when the input stops, the idle flush
+    (C18_idle_flushes, C18_start_flushes_before_blocking) takes over. *)
+Theorem C18_adaptive_late_flush : forall {A} (clock : nat -> N) (t0 : N) (s : strategy) (n : nat) (d : N)
+    (blocks : list nat) (l : list (elem A * N * N)) (x : elem A * N * N) (b r : nat),
+  b < length blocks -> r < nth b blocks 0 ->
+  addressed s blocks b r x = true ->
+  (d < clock (length l) - last_send_of (end_state clock t0 s (BAdaptive n d) blocks l) b r)%N ->
+  buffer_of (end_state clock t0 s (BAdaptive n d) blocks (l ++ [x])) b r = [] /\
+  received (run (end_machine clock t0 s (BAdaptive n d) blocks) (l ++ [x])) b r
+  = map (fun x => fst (fst x)) (filter (addressed s blocks b r) (l ++ [x])).
+Proof. exact @adaptive_late_flush. Qed.
+
+(** every adaptive batch has between 1 and n elements, whatever the clock *)
+Theorem C18_adaptive_batch_bound : forall {A} (clock : nat -> N) (t0 : N) (s : strategy) (n : nat) (d : N)
+    (blocks : list nat) (l : list (elem A * N * N)),
+  1 <= n ->
+  Forall (fun '(b, r, batch) => 1 <= length batch <= n)
+         (run (end_machine clock t0 s (BAdaptive n d) blocks) l).
+Proof. exact @adaptive_batch_bound. Qed.
+
+(** `Adaptive(3, 10ms)`, batchers created at 0 ms, five elements pulled at 0, 5, 20, 21, 40 ms.
+    (1) a non-empty flush at FlushBatch RESETS `last_send` (one receiver):
+      k=0 (0 ms)  push 1: 0 - 0 = 0, not > 10                   -> buffered
+      k=1 (5 ms)  push 2: 5 - 0 = 5, not > 10                   -> buffered
+      k=2 (20 ms) FlushBatch                                     -> batch [1;2], last_send := 20
+      k=3 (21 ms) push 3: 21 - 20 = 1, not > 10                 -> buffered
+                  (with the old last_send = 0, 21 > 10 would have sent [3] alone)
+      k=4 (40 ms) push 4: 2 < 3 but 40 - 20 = 20 > 10           -> batch [3;4], last_send := 40 *)
+Definition ex_clock (k : nat) : N := nth k [0; 5; 20; 21; 40]%N 0%N.
+Example C18_flush_resets_last_send :
+  let input := [(Item 1%Z, 0%N, 0%N); (Item 2%Z, 0%N, 0%N); (FlushBatch, 0%N, 0%N);
+                (Item 3%Z, 0%N, 0%N); (Item 4%Z, 0%N, 0%N)] in
+  run (end_machine ex_clock 0%N SOnlyOne (BAdaptive 3 10) [1]) input
+  = [(0, 0, [Item 1%Z; Item 2%Z]); (0, 0, [Item 3%Z; Item 4%Z])] /\
+  last_send_of (end_state ex_clock 0%N SOnlyOne (BAdaptive 3 10) [1] (firstn 3 input)) 0 0 = 20%N /\
+  buffer_of (end_state ex_clock 0%N SOnlyOne (BAdaptive 3 10) [1] (firstn 4 input)) 0 0 = [Item 3%Z].
+Proof. vm_compute. repeat split; reflexivity. Qed.
+
+(** (2) an EMPTY flush does NOT touch `last_send` (group-by towards two replicas; hash 0 goes
+    to replica 0, hash 1 to replica 1):
+      k=0 (0 ms)  push 1 to r0: 0 - 0 = 0                        -> buffered in r0
+      k=1 (5 ms)  push 2 to r0: 5 - 0 = 5                        -> buffered in r0
+      k=2 (20 ms) FlushBatch: r0 sends [1;2], last_send(r0) := 20; r1 is EMPTY: nothing is
+                  sent and last_send(r1) stays 0
+      k=3 (21 ms) push 3 to r1: 1 < 3 but 21 - 0 = 21 > 10       -> batch [3] at once, last_send(r1) := 21
+                  (had the empty flush set last_send(r1) to 20, 21 - 20 = 1: 3 would be withheld)
+      k=4 (40 ms) push 4 to r0: 40 - 20 = 20 > 10                -> batch [4], last_send(r0) := 40 *)
+Example C18_empty_flush_keeps_last_send :
+  let input := [(Item 1%Z, 0%N, 0%N); (Item 2%Z, 0%N, 0%N); (FlushBatch, 0%N, 0%N);
+                (Item 3%Z, 1%N, 0%N); (Item 4%Z, 0%N, 0%N)] in
+  run (end_machine ex_clock 0%N SGroupBy (BAdaptive 3 10) [2]) input
+  = [(0, 0, [Item 1%Z; Item 2%Z]); (0, 1, [Item 3%Z]); (0, 0, [Item 4%Z])] /\
+  last_send_of (end_state ex_clock 0%N SGroupBy (BAdaptive 3 10) [2] (firstn 3 input)) 0 0 = 20%N /\
+  last_send_of (end_state ex_clock 0%N SGroupBy (BAdaptive 3 10) [2] (firstn 3 input)) 0 1 = 0%N /\
+  last_send_of (end_state ex_clock 0%N SGroupBy (BAdaptive 3 10) [2] input) 0 1 = 21%N.
+Proof. vm_compute. repeat split; reflexivity. Qed.
 
 (** With adaptive batching a block input performs an UNTIMED blocking receive only after it
     has emitted FlushBatch since the last batch it received (so its batchers are empty
@@ -56,5 +146,10 @@ Theorem C18_one_timeout_per_boundary : forall {A} (k : nat), 1 <= k ->
 Proof. exact @one_timeout_per_boundary. Qed.
 
 Print Assumptions C18_round_end_flushes.
+Print Assumptions C18_idle_flushes.
+Print Assumptions C18_buffer_is_pending.
+Print Assumptions C18_last_send_step.
+Print Assumptions C18_adaptive_late_flush.
+Print Assumptions C18_adaptive_batch_bound.
 Print Assumptions C18_start_flushes_before_blocking.
 Print Assumptions C18_quiescent_delivered.
